@@ -1714,6 +1714,25 @@ func (k *Kernel) handleStateMachineRoundEntrance(ctx context.Context, s *kState,
 			return
 		}
 
+		if status == ViewOrphaned {
+			// The state machine entered a round of the voting height
+			// that the network has already left (the mirror advanced on nil precommits
+			// or jumped ahead before the state machine got here).
+			// We no longer hold a view for that round,
+			// so answer with an empty view of that round
+			// and tell the state machine to jump ahead to the round we are voting on.
+			empty := s.Voting.Clone()
+			empty.ResetForSameHeight()
+			empty.Round = re.R
+			empty.Version = 1
+
+			// Response channel is 1-buffered so it is safe to send this without a select.
+			re.Response <- tmeil.RoundEntranceResponse{VRV: empty}
+			s.StateMachineViewManager.MarkFirstSentVersion(empty.Version)
+			s.StateMachineViewManager.JumpToRound(s.Voting)
+			return
+		}
+
 		panic(fmt.Errorf(
 			"TODO: handle view not found (status=%s) when responding to state machine round update for height/round %d/%d",
 			status, re.H, re.R,
